@@ -14,6 +14,8 @@ class Naming(object):
         self.scheme = scheme
 
     def level(self, l):
+        if self.scheme == 'longtop':
+            return f'lt{l}'
         if self.scheme == 'slashed':
             return f'lvl{l}'
         if self.scheme == 'prefix':
@@ -27,6 +29,8 @@ class Naming(object):
         return 'abcdefghij'[l]
 
     def node(self, l, n):
+        if self.scheme == 'longtop':
+            return f'T{n}' + 'ergic' * max(0, 4 - l)    # the coarser the level the longer the name ('Glutamatergic' over 'IT')
         if self.scheme == 'slashed':
             return f'L{l}/{n} IT x'         # legal labels with a slash and spaces ("L2/3 IT")
         if self.scheme == 'prefix':
